@@ -9,4 +9,4 @@ set -u
 cd "$(dirname "$0")"
 ROOT=$(pwd)
 export PATH=/usr/bin:$PATH
-python3 tools/build.py --all "$@"
+VERIF_REPO="${VERIF_REPO:-/repo}" python3 tools/build.py --all "$@"
